@@ -1,0 +1,203 @@
+// Copyright 2026 The Scriggo Authors. All rights reserved.
+// Use of this source code is governed by a BSD-style
+// license that can be found in the LICENSE file.
+
+//go:build verif
+
+// Contracts for the deductive verifier in /verif (govc). This file is compiled
+// only with the "verif" build tag. The //@ comment blocks are the contracts;
+// the Go functions are executable specification functions used by them.
+
+package main
+
+// ---- specification helpers (interpreted by govc) ----
+
+func old[T any](x T) T   { return x }
+func imp(a, b bool) bool { return !a || b }
+func forall(lo, hi int, p func(int) bool) bool {
+	for k := lo; k < hi; k++ {
+		if !p(k) {
+			return false
+		}
+	}
+	return true
+}
+
+// entry(x) is the value of x when the innermost loop was entered.
+func entry[T any](x T) T { return x }
+
+// ---------------------------------------------------------------------------
+// C29: the Markdown link-destination scanner. Every function that walks the
+// bytes of a line is proved free of index and slice panics for all inputs, its
+// loops terminate, and the positions it returns lie inside the line in the
+// order the callers rely on (start <= stop <= end <= len(line)).
+// ---------------------------------------------------------------------------
+
+//@ func countRun
+//@   props C29
+//@   requires 0 <= pos
+//@   ensures 0 <= result && (pos <= len(line) ==> pos+result <= len(line))
+//@   ensures pos < len(line) && line[pos] == c ==> result >= 1
+//@   loop 0
+//@     invariant pos <= i && (i <= len(line) || i == pos)
+//@     decreases len(line) - i
+
+//@ func skipSpaces
+//@   props C29
+//@   requires 0 <= pos
+//@   ensures old(pos) <= result && (result <= len(line) || result == old(pos))
+//@   loop 0
+//@     invariant old(pos) <= pos && (pos <= len(line) || pos == old(pos))
+//@     decreases len(line) - pos
+
+//@ func skipSpacesCount
+//@   props C29
+//@   requires 0 <= pos
+//@   ensures old(pos) <= newPos && (newPos <= len(line) || newPos == old(pos)) && count == newPos-old(pos)
+//@   loop 0
+//@     invariant old(pos) <= pos && (pos <= len(line) || pos == old(pos)) && count == pos-old(pos)
+//@     decreases len(line) - pos
+
+//@ func findLabelEnd
+//@   props C29
+//@   requires 0 <= pos
+//@   ensures result == -1 || pos <= result && result < len(line) && line[result] == ']'
+//@   loop 0
+//@     invariant pos <= i
+//@     decreases len(line) - i
+
+//@ func parseTitle
+//@   props C29
+//@   requires 0 <= pos && pos < len(line)
+//@   ensures ok ==> pos+2 <= end && end <= len(line)
+//@   loop 0
+//@     invariant pos+1 <= i
+//@     decreases len(line) - i
+
+//@ func parseTitleAndClose
+//@   props C29
+//@   requires 0 <= pos
+//@   ensures ok ==> pos < end && end <= len(line)
+
+//@ func parseDestination
+//@   props C29
+//@   requires 0 <= pos
+//@   ensures ok ==> pos <= start && start <= stop && stop <= after && after <= len(line)
+//@   loop 0
+//@     invariant pos+1 <= i
+//@     decreases len(line) - i
+//@   loop 1
+//@     invariant pos <= i && i <= len(line) && opened >= 0
+//@     decreases len(line) - i
+
+//@ func parseInlineDestination
+//@   props C29
+//@   requires 0 <= pos
+//@   ensures ok ==> pos <= start && start <= stop && stop < end && end <= len(line)
+
+//@ func parseReferenceDefinition
+//@   props C29
+//@   ensures ok ==> 0 <= start && start <= stop && stop <= len(line)
+
+//@ func isIndentedCode
+//@   props C29
+
+//@ func isFenceStart
+//@   props C29
+//@   ensures ok ==> fenceLen >= 3
+
+//@ func isFenceClose
+//@   props C29
+//@   requires 0 <= fenceLen
+
+//@ func parseHTMLTag
+//@   props C29
+//@   requires 0 <= pos
+//@   ensures ok ==> pos+3 <= end && end <= len(line)
+//@   loop 0
+//@     invariant start <= i && i <= len(line)
+//@     decreases len(line) - i
+//@   loop 1
+//@     invariant start <= i && i <= len(line)
+//@     decreases len(line) - i
+//@   loop 2
+//@     invariant start <= i && i <= len(line) && entry(i) <= i
+//@     decreases len(line) - i
+//@   loop 3
+//@     invariant pos <= j && j < len(line)
+//@     decreases j
+
+// The HTML state kept across lines.
+//@ func (*htmlState).inHTML
+//@   props C29
+//@   pure
+
+//@ func (*htmlState).openTag
+//@   props C29
+
+//@ func (*htmlState).closeTag
+//@   props C29
+//@   loop 0
+//@     invariant -1 <= i && i < len(s.stack)
+//@     decreases i + 1
+
+// The escaping pair (mdescape.go): no index or slice panic, termination, no
+// effect on memory other than the strings they build.
+//@ func markdownURLEscape
+//@   props C29
+//@   modifies nothing
+//@   opt allocates yes
+//@   loop 0
+//@     invariant len(s) <= old(len(s))
+//@     decreases len(s)
+
+//@ func markdownUnescape
+//@   props C29
+//@   modifies nothing
+//@   opt allocates yes
+//@   ensures result1 == nil
+//@   loop 0
+//@     invariant 0 <= i && i <= len(s) && 0 <= last && last <= i
+//@     decreases len(s) - i
+
+//@ func isMarkdownEscapable
+//@   props C29
+//@   pure
+
+// A replacement is recorded only for a non-empty range inside the source.
+func specReplOK(r replacement, n int) bool { return 0 <= r.start && r.start < r.stop && r.stop <= n }
+
+//@ func linkDestinationReplacer.appendReplacement
+//@   props C29
+//@   requires r.base != nil && replacements != nil
+//@   requires forall(0, len(*replacements), func(k int) bool { return specReplOK((*replacements)[k], len(src)) })
+//@   ensures forall(0, len(*replacements), func(k int) bool { return specReplOK((*replacements)[k], len(src)) })
+//@   ensures len(*replacements) == old(len(*replacements)) || len(*replacements) == old(len(*replacements))+1
+
+//@ func linkDestinationReplacer.scanInlineLinks
+//@   props C29
+//@   requires r.base != nil && replacements != nil && html != nil
+//@   requires 0 <= lineStart && lineStart+len(line) <= len(src)
+//@   requires forall(0, len(*replacements), func(k int) bool { return specReplOK((*replacements)[k], len(src)) })
+//@   ensures forall(0, len(*replacements), func(k int) bool { return specReplOK((*replacements)[k], len(src)) })
+//@   loop 0
+//@     invariant 0 <= i && 0 <= codeSpanLen
+//@     invariant forall(0, len(*replacements), func(k int) bool { return specReplOK((*replacements)[k], len(src)) })
+//@     decreases len(line) - i
+
+//@ func linkDestinationReplacer.collectReplacements
+//@   props C29
+//@   requires r.base != nil
+//@   ensures forall(0, len(result), func(k int) bool { return specReplOK(result[k], len(src)) })
+//@   loop 0
+//@     invariant 0 <= lineStart && 0 <= fenceLen
+//@     invariant forall(0, len(replacements), func(k int) bool { return specReplOK(replacements[k], len(src)) })
+//@     decreases len(src) + 1 - lineStart
+
+//@ func linkDestinationReplacer.applyReplacements
+//@   props C29
+//@   requires dst != nil
+//@   requires forall(0, len(replacements), func(k int) bool { return specReplOK(replacements[k], len(src)) })
+//@   loop 0
+//@     invariant 0 <= prev && prev <= len(src)
+//@     invariant forall(0, len(replacements), func(k int) bool { return specReplOK(replacements[k], len(src)) })
